@@ -22,6 +22,23 @@ var VerifHooks struct {
 
 func verifYield(site string) { plenccore.VerifYield(site) }
 
+// verifMapIter and verifMapIterEnd bracket every iteration over a Go map on
+// the encode side. Go randomises the order of such an iteration, so the
+// simulator treats an iteration over more than one entry as a single step
+// (it ignores the yield points inside it): a schedule must not depend on an
+// order nobody controls.
+func verifMapIter(entries int) {
+	if entries > 1 {
+		plenccore.VerifYield("map.iterN")
+	} else {
+		plenccore.VerifYield("map.iter1")
+	}
+}
+
+func verifMapIterPtr(m unsafe.Pointer) { verifMapIter(maplen(m)) }
+
+func verifMapIterEnd() { plenccore.VerifYield("map.iterEnd") }
+
 // verifAwaitUnlocked is placed on the line before a mutex Lock. Under the
 // simulator exactly one goroutine runs at a time, so it must never block for
 // real: it yields until the lock is free. Without a Yield hook it does nothing.
